@@ -733,6 +733,57 @@ func genTruncMethods(r *Rng, methods []string) string {
 	return strings.Join(ms, "+")
 }
 
+// genHostFamily: hostnames that extend one another as strings (at a label boundary, inside a label, by a parameter),
+// each serving one to three paths, some of which share a path prefix that is not itself a route. Deleting the routes of
+// one host one by one meets the host/path boundary cases of the tree (a host node above its path sub-tree, next to the
+// continuation of a longer host).
+func genHostFamily(r *Rng) []string {
+	hbase := Pick(r, []string{"a.b", "{s}.b", "a.{t}", "ab.example.com", "{s}.{t}", "b"})
+	hostTails := []string{"", ".c", "c", "-c", ".{u}", ".c.d", "{v}"}
+	pathSets := [][]string{{"/foo", "/bar"}, {"/x"}, {"/"}, {"/foo", "/foo/{x}", "/fob"}, {"/{p}", "/q"}, {"/foo/", "/fo"}, {"/*{w}", "/a"}}
+	var fam []string
+	seen := map[string]bool{}
+	for _, ht := range hostTails {
+		if ht != "" && !r.Chance(50) {
+			continue
+		}
+		h := hbase + ht
+		if strings.HasSuffix(hbase, "}") && strings.HasPrefix(ht, "{") {
+			continue
+		}
+		for _, pt := range Pick(r, pathSets) {
+			if !seen[h+pt] {
+				seen[h+pt] = true
+				fam = append(fam, h+pt)
+			}
+		}
+	}
+	if r.Chance(40) {
+		fam = append(fam, Pick(r, []string{"/foo", "/x", "/{p}"}))
+	}
+	if r.Chance(50) {
+		// a parameterised host next to a static one, serving the slash-toggled path: a request that is a trailing-slash
+		// candidate under the static host is a direct match under the parameterised one (and vice versa)
+		for _, p := range append([]string(nil), fam...) {
+			hp, pp := splitHostPath(p)
+			if hp == "" || strings.Contains(hp, "{") || len(pp) < 2 || !r.Chance(60) {
+				continue
+			}
+			labels := strings.Split(hp, ".")
+			labels[r.Intn(len(labels))] = "{h}"
+			toggled := pp + "/"
+			if strings.HasSuffix(pp, "/") {
+				toggled = pp[:len(pp)-1]
+			}
+			if q := strings.Join(labels, ".") + toggled; !seen[q] {
+				seen[q] = true
+				fam = append(fam, q)
+			}
+		}
+	}
+	return fam
+}
+
 func genOps(r *Rng, tier string, n int, emit func(string)) {
 	for c := 0; c < n; c++ {
 		cr := r.Fork()
@@ -749,7 +800,7 @@ func genOps(r *Rng, tier string, n int, emit func(string)) {
 			hostPct = Pick(cr, []int{60, 80, 100})
 		}
 		dump := tier == "thorough" && cr.Chance(30)
-		kind := cr.Intn(13)
+		kind := cr.Intn(15)
 		addH := func(m, p string) {
 			hid++
 			ops = append(ops, fmt.Sprintf("H,%s,%s,%d,%d", m, hx(p), Pick(cr, []int{0, 0, 0, 1, 2}), hid))
@@ -773,19 +824,23 @@ func genOps(r *Rng, tier string, n int, emit func(string)) {
 			// prefix family: a few patterns closed under common prefixes, registered in random order and then deleted /
 			// re-registered one by one - every deletion meets a different shape (leaf with several children, single
 			// child to merge, parent / grand-parent to merge, host/path boundary)
-			base := genPattern(cr, hostPct)
-			if cr.Chance(50) {
-				base = strings.TrimSuffix(base, "/")
-			}
-			tails := []string{"", "x", "y", "xy", "xz", "x/z", "/", "/q", "/{p}", "/*{w}", "x{p}", "y/", "/q/r", "*{v}"}
 			var fam []string
-			for _, t := range tails {
-				if cr.Chance(55) {
-					fam = append(fam, base+t)
+			if kind >= 13 {
+				fam = genHostFamily(cr)
+			} else {
+				base := genPattern(cr, hostPct)
+				if cr.Chance(50) {
+					base = strings.TrimSuffix(base, "/")
 				}
-			}
-			if len(fam) < 3 {
-				fam = append(fam, base, base+"x", base+"y")
+				tails := []string{"", "x", "y", "xy", "xz", "x/z", "/", "/q", "/{p}", "/*{w}", "x{p}", "y/", "/q/r", "*{v}"}
+				for _, t := range tails {
+					if cr.Chance(55) {
+						fam = append(fam, base+t)
+					}
+				}
+				if len(fam) < 3 {
+					fam = append(fam, base, base+"x", base+"y")
+				}
 			}
 			m := methods[0]
 			for _, i := range cr.Perm(len(fam)) {
